@@ -137,6 +137,12 @@ def _norm_of(call: ast.Call) -> str:
 
 
 def run(check, repo: Repo) -> None:
+    propagator_rules(check, repo)
+    _run_rest(check, repo)
+
+
+def propagator_rules(check, repo: Repo) -> None:
+    """R1/R6/R7 on ProbeBase._compute_propagator_arrays (also borrowed by C02: the multislice forward model)."""
     # ---- R1 unit-modulus propagators ----------------------------------------------------------------
     pmod, prop = repo.func(f"{PM}:ProbeBase._compute_propagator_arrays")
     check.analysed(f"{PM}:ProbeBase._compute_propagator_arrays")
@@ -200,6 +206,9 @@ def run(check, repo: Repo) -> None:
         check.decide(fa == next(iter(used_t)), "C16-R7", f"_compute_propagator_arrays: tilt ramp `{t[:40]}` pairs its tilt with the frequency vector of the same direction", "", pmod.line(stmt),
                      fail_detail=f"`{t}` multiplies the axis-{next(iter(used_t))} tilt with the axis-{fa} frequencies")
 
+
+
+def _run_rest(check, repo: Repo) -> None:
     # ---- R2 isometry chains -----------------------------------------------------------------------------
     sites = []
     for q in (f"{PB}:PtychographyBase._propagate_array", f"{OMD}:ObjectBase._propagate_array", f"{PU}:fourier_shift_expand",
@@ -464,6 +473,18 @@ def _projection(check, repo, mod, fp) -> None:
             ok = rs == ["torch.fft.fftshift(amps, dim=(-2, -1))"] and rp == ["amps"]
     check.decide(ok, "C16-R4", "estimate_amplitudes: corner_centered=True returns the unshifted amplitudes, otherwise fftshift", "", repo.module(PB).line(est),
                  fail_detail="estimate_amplitudes does not shift exactly when corner_centered is false")
+    # the detector model centres its prediction with the SAME operator as estimate_amplitudes (fftshift: DC at n//2), the operator whose
+    # inverse (ifftshift) fourier_projection applies to the measured amplitudes; on odd axes fftshift ≠ ifftshift
+    DETM = "quantem.diffractive_imaging.detector_models"
+    detm, det = repo.func(f"{DETM}:DetectorPixelated.forward")
+    check.analysed(f"{DETM}:DetectorPixelated.forward")
+    dsh = [(call_name(c) or "").split(".")[-1] for c in calls_in(det) if (call_name(c) or "").split(".")[-1] in ("fftshift", "ifftshift")]
+    dims = [unparse(kwarg(c, "dim") or ast.Constant(None)) for c in calls_in(det) if (call_name(c) or "").split(".")[-1] in ("fftshift", "ifftshift")]
+    check.decide(dsh == ["fftshift"] and all(d in ("(-2, -1)", "(-1, -2)") for d in dims), "C16-R4",
+                 "DetectorPixelated.forward centres the predicted pattern with fftshift over the detector axes — the operator fourier_projection inverts and estimate_amplitudes applies",
+                 str(dsh), detm.line(det),
+                 fail_detail=f"the detector model applies {dsh} (dims {dims}): on an odd detector axis its DC pixel is not where the measured data, estimate_amplitudes (fftshift) and "
+                             f"fourier_projection (ifftshift of the measured amplitudes) put it — projected exit waves no longer reproduce the measured amplitudes")
     # single-state arm: measured × unit-modulus phase
     arm = next((n for n in ast.walk(fp) if isinstance(n, ast.If) and "num_probes == 1" in unparse(n.test)), None)
     if arm is None:
